@@ -66,8 +66,7 @@ func Load(patterns []string, options ...func(c *packages.Config)) (*Universe, er
 			}
 		}
 
-		pkg := newPkg(p, u)
-
+		// dependencies first: newPkg resolves the import table from the universe
 		for k := range p.Imports {
 			importedPkg := p.Imports[k]
 
@@ -75,6 +74,8 @@ func Load(patterns []string, options ...func(c *packages.Config)) (*Universe, er
 				register(importedPkg)
 			}
 		}
+
+		pkg := newPkg(p, u)
 
 		u.pkgs[p.PkgPath] = pkg
 
